@@ -1,6 +1,6 @@
 (** C02 — (1) the constants: UNIX_EPOCH is the instant 0, MIN_UTC / MAX_UTC (NaiveDateTime::MIN / MAX)
     are the first and last instants of the supported range; (2) [C02_holds]: on EVERY case line of
-    the judge's domain (all 27 ops of the dispatcher) the judge of Judge/C02.v accepts the model's
+    the judge's domain (all 28 ops of the dispatcher) the judge of Judge/C02.v accepts the model's
     output.  Unconditional (the calendar facts are discharged in Proofs/C02Date.v). *)
 From Coq Require Import String ZArith List Bool Lia ZifyBool.
 From V Require Import Base.Int Base.IO Base.IntLemmas Spec.Gregorian Model.TimeDelta.
@@ -77,6 +77,18 @@ Lemma ts_consts_val :
 Proof. vm_compute. reflexivity. Qed.
 
 Lemma holds_consts : Judge.C02.judge B"ts.consts" [] (run B"ts.consts" []) = JOk.
+Proof. vm_compute. reflexivity. Qed.
+
+(** the [Default] impls: each is the epoch (its date / its time / the whole), offset 0 on the zoned ones *)
+Lemma defaults_spec :
+  date_default = Val D_EPOCH /\ time_default = Val T_MIN /\ ndt_default = Val NDT_EPOCH /\
+  dtz_default_utc = Val (mk_dtz NDT_EPOCH 0) /\ dtz_default_fixed = Val (mk_dtz NDT_EPOCH 0).
+Proof. vm_compute. repeat split; reflexivity. Qed.
+Lemma ts_defaults_val :
+  ts_defaults = Val (VTup [enc_date D_EPOCH; Time.enc_time T_MIN; enc_ndt NDT_EPOCH;
+                           enc_dtz (mk_dtz NDT_EPOCH 0); enc_dtz (mk_dtz NDT_EPOCH 0); VInt 0; VInt 0]).
+Proof. vm_compute. reflexivity. Qed.
+Lemma holds_defaults : Judge.C02.judge B"ts.defaults" [] (run B"ts.defaults" []) = JOk.
 Proof. vm_compute. reflexivity. Qed.
 
 (** * 2. Bridges between the judge's and the model's reading of an argument *)
@@ -689,8 +701,10 @@ Proof.
   destruct (op_is op "ts.naive_ofns") eqn:O24. { intros _. apply accns_holds. }
   destruct (op_is op "ts.systime") eqn:O25. { apply systime_holds. }
   destruct (op_is op "ts.tosys") eqn:O26. { intros _. apply tosys_holds. }
-  destruct (op_is op "ts.consts") eqn:O27; [|congruence].
-  destruct args; [|congruence]. intros _ _. rewrite ts_consts_val. vm_compute. reflexivity.
+  destruct (op_is op "ts.consts") eqn:O27.
+  { destruct args; [|congruence]. intros _ _. rewrite ts_consts_val. vm_compute. reflexivity. }
+  destruct (op_is op "ts.defaults") eqn:O28; [|congruence].
+  destruct args; [|congruence]. intros _ _. rewrite ts_defaults_val. vm_compute. reflexivity.
 Qed.
 
 (** no case is rejected *)
